@@ -36,12 +36,13 @@ var lockmon = struct {
 	on       bool
 	held     map[int64][]heldLock
 	waiting  map[int64]*waitInfo
-	edges    map[string]map[string]string // class -> class -> first site
+	edges    map[string]map[string]string           // class -> class -> first site (reporting, evidence)
+	idEdges  map[interface{}]map[interface{}]string // mutex identity -> identity -> first site (decides inversions)
 	viol     []lockViolation
 	seenViol map[string]bool
 	events   int64
 	acq      []string // order of DB.l acquisitions by goroutine (interleaving fingerprint)
-}{held: map[int64][]heldLock{}, waiting: map[int64]*waitInfo{}, edges: map[string]map[string]string{}, seenViol: map[string]bool{}}
+}{held: map[int64][]heldLock{}, waiting: map[int64]*waitInfo{}, edges: map[string]map[string]string{}, idEdges: map[interface{}]map[interface{}]string{}, seenViol: map[string]bool{}}
 
 func lockmonReset(on bool) {
 	lockmon.mu.Lock()
@@ -49,6 +50,7 @@ func lockmonReset(on bool) {
 	lockmon.held = map[int64][]heldLock{}
 	lockmon.waiting = map[int64]*waitInfo{}
 	lockmon.edges = map[string]map[string]string{}
+	lockmon.idEdges = map[interface{}]map[interface{}]string{}
 	lockmon.viol = nil
 	lockmon.seenViol = map[string]bool{}
 	lockmon.acq = nil
@@ -120,21 +122,23 @@ func lockmonAdd(v lockViolation) {
 	}
 }
 
-// reachable: is class `to` reachable from `from` in the order graph?
-func lockReach(from, to string, seen map[string]bool) bool {
-	if from == to {
-		return true
-	}
+// lockReach: is mutex `to` reachable from `from` in the identity-level order
+// graph? Two different mutexes of one struct (or of one class) are distinct
+// nodes, so taking them in a fixed order is never reported.
+func lockReach(from, to interface{}, seen map[interface{}]bool) (string, bool) {
 	if seen[from] {
-		return false
+		return "", false
 	}
 	seen[from] = true
-	for n := range lockmon.edges[from] {
-		if lockReach(n, to, seen) {
-			return true
+	for n, site := range lockmon.idEdges[from] {
+		if n == to {
+			return site, true
+		}
+		if s, ok := lockReach(n, to, seen); ok {
+			return s, true
 		}
 	}
-	return false
+	return "", false
 }
 
 // blockers returns the goroutines that currently prevent g's request.
@@ -192,6 +196,7 @@ func lockHook(op string, mu interface{}) {
 	case "lock?", "rlock?":
 		write := op == "lock?"
 		class, site := lockSite()
+		class += mutexKind(mu)
 		// (i) re-acquisition of a mutex the goroutine already holds
 		for _, h := range lockmon.held[g] {
 			if h.mu == mu {
@@ -200,19 +205,25 @@ func lockHook(op string, mu interface{}) {
 					Detail: fmt.Sprintf("goroutine %d requests %s on a %s mutex it already holds in mode %s (held since %s); with Go's writer-preferring RWMutex a writer queued in between blocks both forever", g, mode[write], class, mode[h.write], h.site)})
 			}
 		}
-		// (ii) lock order
+		// (ii) lock order, decided on mutex identities
 		for _, h := range lockmon.held[g] {
-			if h.mu == mu || h.class == class {
+			if h.mu == mu {
 				continue
+			}
+			if lockmon.idEdges[h.mu] == nil {
+				lockmon.idEdges[h.mu] = map[interface{}]string{}
+			}
+			if _, ok := lockmon.idEdges[h.mu][mu]; !ok {
+				if rsite, inv := lockReach(mu, h.mu, map[interface{}]bool{}); inv {
+					lockmonAdd(lockViolation{Kind: "order-inversion", Class: h.class + "->" + class, Site: site,
+						Detail: fmt.Sprintf("goroutine %d takes a %s mutex while holding a %s mutex; the same two mutexes were taken in the opposite order at %s", g, class, h.class, rsite)})
+				}
+				lockmon.idEdges[h.mu][mu] = site
 			}
 			if lockmon.edges[h.class] == nil {
 				lockmon.edges[h.class] = map[string]string{}
 			}
 			if _, ok := lockmon.edges[h.class][class]; !ok {
-				if lockReach(class, h.class, map[string]bool{}) {
-					lockmonAdd(lockViolation{Kind: "order-inversion", Class: h.class + "->" + class, Site: site,
-						Detail: fmt.Sprintf("goroutine %d takes %s while holding %s, the opposite order was seen at %s", g, class, h.class, lockmon.edges[class][h.class])})
-				}
 				lockmon.edges[h.class][class] = site
 				stats.SetAdd("lock_order_edges", h.class+"->"+class)
 			}
@@ -257,4 +268,12 @@ func lockHook(op string, mu interface{}) {
 
 func lockHooks() *Hooks {
 	return &Hooks{Sleep: clockSleep, Go: clockGo, Lock: lockHook}
+}
+
+// mutexKind distinguishes a plain mutex from a RW mutex of the same owner.
+func mutexKind(mu interface{}) string {
+	if strings.Contains(fmt.Sprintf("%T", mu), "verifMutex") {
+		return ".mutex"
+	}
+	return ""
 }
